@@ -1,6 +1,7 @@
 package main
 
 import (
+	"go/constant"
 	"fmt"
 	"strings"
 
@@ -11,7 +12,7 @@ func init() {
 	register(&propInfo{
 		ID:          "C14",
 		Run:         runC14,
-		MinObl:      24,
+		MinObl:      25,
 		Explanation: "Decided: R1 issuance gates — every ID-token sink in the OIDC handlers (explicit, refresh, device, implicit, hybrid) is reached only with Has(granted scopes, openid) true for the grant being served, and GenerateIDToken succeeds only with a non-empty subject; R2 claim provenance in GenerateIDToken: nonce ← the request's nonce (only if at least the minimum length), aud ∋ the requesting client's id, issuer defaulted from the provider when empty, a zero expiry becomes now+lifespan and an expiry before now fails, and unsatisfied max_age / prompt=none|login / id_token_hint subject mismatch are fail exits; R3 hashes: at_hash is computed from responder.GetAccessToken() / the access_token parameter of the same response and c_hash from its code parameter; the hash helper returns base64url of the left half of SHA-256/384/512 chosen by the digits of the header alg; on refresh c_hash is cleared and at_hash recomputed; R4 in ComposeAllEnabled each OAuth2 handler precedes its OIDC companion (explicit, refresh, device). R5 the authorize-endpoint validator (ValidatePrompt) succeeds only with a non-empty subject, and — whenever the prompt list is not known to lack the value — with auth_time not before the request time for login, auth_time present and not after it for none, auth_time + max_age not before it for max_age > 0, and the hint's sub equal to the session subject for an id_token_hint (the strategy's own switch only matches single-valued prompts, so this is the only guard for \"login consent\"). NOT decided: signature validity of the emitted JWT, time arithmetic, what the application put into the session claims.",
 	})
 }
@@ -42,7 +43,7 @@ func c14R1(c *Ctx) {
 			continue
 		}
 		n++
-		ex := c.Explore(en.fn, ExploreConfig{Inline: func(f *ssa.Function) bool { return f.Parent() != nil || defaultInline(f) && len(f.Blocks) <= 6 }}, "oidc")
+		ex := c.Explore(en.fn, ExploreConfig{Inline: oidcInline(c)}, "oidc")
 		if !c.complete(ex, rule, en.role, en.fn) {
 			continue
 		}
@@ -309,6 +310,29 @@ func c14Hashes(c *Ctx) {
 				if wantH == "" {
 					wantH = "sha256.New"
 				}
+				// dispatch-table form: the constructor is looked up in a package-level table keyed by
+				// the size parsed from the alg header; sizes missing from the table take the fallback
+				if H.IsCall("apply") && len(H.Args) == 1 && H.Args[0].Op == "lookup" && len(H.Args[0].Args) == 2 && H.Args[0].Args[0].Op == "global" &&
+					H.Args[0].Args[1].Mentions(func(s *Term) bool { return s.IsCall("strconv.Atoi") }) {
+					tbl, okT := c.P.GlobalFuncMap(H.Args[0].Args[0].Name)
+					want := map[int64]string{256: "sha256.New", 384: "sha512.New384", 512: "sha512.New"}
+					if !okT {
+						ok, w, why = false, p, "the hash constructor is taken from "+H.Args[0].Args[0].Name+", which is not a constant dispatch table"
+						continue
+					}
+					for k, v := range tbl {
+						if want[k] != v {
+							ok, w, why = false, p, fmt.Sprintf("the dispatch table maps alg size %d to %s, expected %s", k, v, map[bool]string{true: want[k], false: "no entry (SHA-256 fallback)"}[want[k] != ""])
+						}
+						algs[v] = true
+					}
+					for _, k := range []int64{384, 512} {
+						if tbl[k] == "" {
+							ok, w, why = false, p, fmt.Sprintf("the dispatch table has no entry for alg size %d, which then falls back to another digest", k)
+						}
+					}
+					continue
+				}
 				if H.CallName() != wantH {
 					ok, w, why = false, p, fmt.Sprintf("alg size %d hashes with %s, expected %s", size, H.CallName(), wantH)
 				}
@@ -323,7 +347,7 @@ func c14Hashes(c *Ctx) {
 		if fnPkgPath(en.fn) != pkgOpenID || en.role != "issue" && en.role != "authorize" {
 			continue
 		}
-		ex := c.Explore(en.fn, ExploreConfig{Inline: func(f *ssa.Function) bool { return f.Parent() != nil || defaultInline(f) && len(f.Blocks) <= 6 }}, "oidc")
+		ex := c.Explore(en.fn, ExploreConfig{Inline: oidcInline(c)}, "oidc")
 		if ex.Truncated != "" {
 			continue
 		}
@@ -409,7 +433,7 @@ func c14Hashes(c *Ctx) {
 		if recvTypeName(fn) != pkgOpenID+".OpenIDConnectRefreshHandler" {
 			continue
 		}
-		ex := c.Explore(fn, ExploreConfig{Inline: func(f *ssa.Function) bool { return f.Parent() != nil || defaultInline(f) && len(f.Blocks) <= 6 }}, "oidc")
+		ex := c.Explore(fn, ExploreConfig{Inline: oidcInline(c)}, "oidc")
 		ok, m := true, 0
 		for _, p := range ex.Paths {
 			if len(p.Calls(".IssueExplicitIDToken", ".GenerateIDToken")) == 0 {
@@ -439,4 +463,101 @@ func c14Order(c *Ctx) {
 	c.checkComposeOrder(rule, pkgOAuth2+".AuthorizeExplicitGrantHandler", pkgOpenID+".OpenIDConnectExplicitHandler", "the ID token's at_hash needs the access token issued by the OAuth2 handler")
 	c.checkComposeOrder(rule, pkgOAuth2+".RefreshTokenGrantHandler", pkgOpenID+".OpenIDConnectRefreshHandler", "the ID token's at_hash needs the access token issued by the OAuth2 handler")
 	c.checkComposeOrder(rule, pkgDevice+".DeviceCodeTokenEndpointHandler", pkgOpenID+".OpenIDConnectDeviceHandler", "the ID token's at_hash needs the access token issued by the device handler")
+}
+
+// GlobalFuncMap resolves a package-level map[<int>]func… initialised once in
+// init with constant keys and named functions (a dispatch table), provided no
+// function of the program writes it. Result: key -> short function name.
+func (P *Program) GlobalFuncMap(name string) (map[int64]string, bool) {
+	var mm *ssa.MakeMap
+	for _, sp := range P.Subjects {
+		initFn := sp.Func("init")
+		if initFn == nil {
+			continue
+		}
+		for _, b := range initFn.Blocks {
+			for _, ins := range b.Instrs {
+				if st, ok := ins.(*ssa.Store); ok {
+					if g, ok := st.Addr.(*ssa.Global); ok && globalName(g) == name {
+						if m, ok := st.Val.(*ssa.MakeMap); ok {
+							mm = m
+						} else {
+							return nil, false
+						}
+					}
+				}
+			}
+		}
+	}
+	if mm == nil {
+		return nil, false
+	}
+	out := map[int64]string{}
+	for _, r := range *mm.Referrers() {
+		switch u := r.(type) {
+		case *ssa.MapUpdate:
+			k, ok := u.Key.(*ssa.Const)
+			if !ok || k.Value == nil {
+				return nil, false
+			}
+			kv, exact := constant.Int64Val(constant.ToInt(k.Value))
+			if !exact {
+				return nil, false
+			}
+			v := u.Value
+			if ct, ok := v.(*ssa.ChangeType); ok {
+				v = ct.X
+			}
+			f, ok := v.(*ssa.Function)
+			if !ok {
+				return nil, false
+			}
+			out[kv] = funcShortName(f)
+		case *ssa.Store:
+		default:
+			return nil, false
+		}
+	}
+	// written anywhere else?
+	for _, fn := range P.AllFuncs {
+		if fn.Name() == "init" || strings.HasPrefix(fn.Name(), "init#") {
+			continue
+		}
+		for _, b := range fn.Blocks {
+			for _, ins := range b.Instrs {
+				switch u := ins.(type) {
+				case *ssa.Store:
+					if g, ok := u.Addr.(*ssa.Global); ok && globalName(g) == name {
+						return nil, false
+					}
+				case *ssa.MapUpdate:
+					if l, ok := u.Map.(*ssa.UnOp); ok {
+						if g, ok := l.X.(*ssa.Global); ok && globalName(g) == name {
+							return nil, false
+						}
+					}
+				}
+			}
+		}
+	}
+	return out, len(out) > 0
+}
+
+// oidcInline: the inline policy of the OpenID Connect handler rules. Small
+// helpers are always traversed; a larger helper is traversed when it (three
+// levels deep) touches what these rules read — the stored-session lookup, the
+// ID-token sinks, the granted-scope gate, the hash helpers — so that a handler
+// whose gate and lookup were moved into one shared helper is still seen whole,
+// while unrelated phases stay opaque.
+func oidcInline(c *Ctx) func(f *ssa.Function) bool {
+	relevant := []string{".GetOpenIDConnectSession", ".CreateOpenIDConnectSession", ".DeleteOpenIDConnectSession", ".GenerateIDToken", ".IssueExplicitIDToken", ".IssueImplicitIDToken", ".GetGrantedScopes", ".GetAccessTokenHash", ".ComputeHash"}
+	return func(f *ssa.Function) bool {
+		if f.Parent() != nil {
+			return true
+		}
+		if !defaultInline(f) {
+			return false
+		}
+		return len(f.Blocks) <= 6 || len(f.Blocks) <= 24 && c.P.RefsMethod(f, 3, relevant...)
+	}
 }
